@@ -405,7 +405,8 @@ class LoadTracer(PagingTracer):
             data_block = self.blocks[self.block_index]
         else:
             raise SkoolKitError("Failed to fast load block: unexpected end of tape")
-        if not data_block.fast_load:
+        if not data_block.fast_load or registers[F] % 2 == 0:
+            # Sample data, or VERIFY (carry flag reset): leave it to the ROM
             return False
 
         memory = simulator.memory
